@@ -136,6 +136,12 @@ def explore(ctx):
             if len(d) == 0:
                 continue
             cat = (ppv_catalog if three_d else pp_catalog)(d, {'data_unit': u.Jy}, fields=['x_cen', 'y_cen'], verbose=False)
+            if len(cat) >= 3 and rng.random() < 0.35:
+                # a catalog column may hold NaN (a statistic that is undefined for some structures): such rows can
+                # never be lassoed, and the rows after them still belong to their own structures
+                for r_ in rng.sample(range(len(cat)), rng.randint(1, max(1, len(cat) // 3))):
+                    cat[rng.choice(['x_cen', 'y_cen'])][r_] = np.nan
+                info['nan_rows'] = True
             v = make_viewer(d)
             from astrodendro.scatter import Scatter
             scs = [Scatter(d, v.hub, cat, 'x_cen', 'y_cen') for _ in range(rng.choice([1, 1, 2]))]
@@ -192,8 +198,8 @@ def explore(ctx):
                 elif kind == 'lasso':
                     sc = rng.choice(scs)
                     xs, ys = np.asarray(cat['x_cen'], dtype=float), np.asarray(cat['y_cen'], dtype=float)
-                    x0, x1 = sorted([rng.uniform(xs.min() - 1, xs.max() + 1) + 0.01379, rng.uniform(xs.min() - 1, xs.max() + 1) + 0.01379])
-                    y0, y1 = sorted([rng.uniform(ys.min() - 1, ys.max() + 1) + 0.01379, rng.uniform(ys.min() - 1, ys.max() + 1) + 0.01379])
+                    x0, x1 = sorted([rng.uniform(np.nanmin(xs) - 1, np.nanmax(xs) + 1) + 0.01379, rng.uniform(np.nanmin(xs) - 1, np.nanmax(xs) + 1) + 0.01379])
+                    y0, y1 = sorted([rng.uniform(np.nanmin(ys) - 1, np.nanmax(ys) + 1) + 0.01379, rng.uniform(np.nanmin(ys) - 1, np.nanmax(ys) + 1) + 0.01379])
                     verts = [(x0, y0), (x1, y0), (x1, y1), (x0, y1), (x0, y0)]
                     sc.lasso = object()
                     sc.callback_generator(types.SimpleNamespace(button=b))(verts)
